@@ -57,15 +57,15 @@ EC = emitted.EmittedClient(OUT, _FDPS, "google.example.cl_v1", "library", rename
 P = ".google.example.cl.v1."
 Book, Shelf = EC.cls(P + "Book"), EC.cls(P + "Shelf")
 M = {n: EC.cls(P + n) for n in ("GetBookRequest", "CreateBookRequest", "UpdateBookRequest", "DeleteBookRequest",
-                               "TagBookRequest", "MoveBookRequest", "StreamBooksRequest", "UploadRequest",
+                               "TagBookRequest", "MoveBookRequest", "StreamBooksRequest", "UploadRequest", "ProbeRequest", "ShelveBookRequest",
                                "ImportRequest", "ListBooksRequest", "ListBooksResponse", "WriteBookRequest",
                                "WriteMetadata", "RouteRequest")}
 FieldMask = EC.cls(".google.protobuf.FieldMask")
 Empty = EC.cls(".google.protobuf.Empty")
 GetOperationRequest = EC.cls(".google.longrunning.GetOperationRequest")
 
-RPCS = ["get_book", "create_book", "update_book", "delete_book", "tag_book", "move_book", "classify_book", "route_override", "stream_books",
-        "upload", "chat", "import_", "create_channel_", "no_sig", "ping", "touch_book", "check_operation", "mask", "list_books",
+RPCS = ["get_book", "create_book", "update_book", "delete_book", "tag_book", "move_book", "classify_book", "shelve_book", "route_override", "stream_books",
+        "upload", "chat", "import_", "create_channel_", "no_sig", "ping", "touch_book", "probe", "check_operation", "mask", "list_books",
         "write_book", "route_simple", "route_rename", "route_multi", "route_nested"]
 STREAMING_REPLY = {"stream_books", "chat"}
 
@@ -99,8 +99,8 @@ class _AsyncRec(fakes.Recorder):
 OPTS = dict(retry="RETRY", timeout=3.5, metadata=(("a", "b"),))
 
 # lift every method now (at import, outside CrossHair's tracing) and give it the recording gapic_v1 shim
-METHODS = ["get_book", "create_book", "update_book", "delete_book", "tag_book", "move_book", "classify_book", "route_override", "stream_books",
-           "upload", "chat", "import_", "create_channel", "no_sig", "ping", "touch_book", "check_operation", "mask", "list_books",
+METHODS = ["get_book", "create_book", "update_book", "delete_book", "tag_book", "move_book", "classify_book", "shelve_book", "route_override", "stream_books",
+           "upload", "chat", "import_", "create_channel", "no_sig", "ping", "touch_book", "probe", "check_operation", "mask", "list_books",
            "write_book", "route_simple", "route_rename", "route_multi", "route_nested"]
 for _w, _c in (("client", "LibraryClient"), ("async_client", "LibraryAsyncClient")):
     for _m in METHODS:
@@ -227,6 +227,30 @@ def flat_get_book(req_kind: int, req_name: Optional[int], kw_name: Optional[int]
         w = {k: v for k, v in sent.items() if v}
         exp = lambda _w: one_call("get_book", w, hdr(("name", name)))
     return both("get_book", lambda: as_kind(req_kind, M["GetBookRequest"], fields), kwargs, exp)
+
+
+def flat_shelve_book(req_kind: int, r_name: Optional[int], k_name: Optional[int], k_lib: Optional[int]) -> bool:
+    """
+    pre: pk(req_kind) and 0 <= req_kind <= 2 and ok_sel(r_name, 3) and ok_sel(k_name, 3) and ok_sel(k_lib, 2)
+    pre: req_kind != 0 or r_name is None
+    post: _
+    """
+    # the flattened scalar `library` has the name of the types module of the request
+    fields = {} if r_name is None else {"name": NAMES[r_name], "library": "main"}
+    kwargs = {}
+    if k_name is not None:
+        kwargs["name"] = NAMES[k_name]
+    if k_lib is not None:
+        kwargs["library"] = PARENTS[k_lib]
+    if req_kind != 0 and kwargs:
+        exp = lambda w: ("ValueError", None, None)
+    else:
+        sent = dict(fields)
+        sent.update(kwargs)
+        name = sent.get("name", "")
+        w = {k: v for k, v in sent.items() if v}
+        exp = lambda _w: one_call("shelve_book", w, hdr(("name", name)))
+    return both("shelve_book", lambda: as_kind(req_kind, M["ShelveBookRequest"], fields), kwargs, exp)
 
 
 BOOKS = [lambda: Book(), lambda: Book(name="n1", rating=4), lambda: Book(shelf=Shelf(name="s"))]
@@ -582,6 +606,17 @@ def disp_simple(which_rpc: int, req_kind: int, sel: Optional[int]) -> bool:
     return both(meth, lambda: as_kind(req_kind, cls, fields), {}, lambda _w: one_call(rpc, w, *hs))
 
 
+def disp_presence_only(req_kind: int, shape: int) -> bool:
+    """
+    pre: 1 <= req_kind <= 2 and 0 <= shape <= 3
+    post: _
+    """
+    # a request that is falsy for proto-plus (nothing but presence) is still the caller's request
+    fields = [{"depth": 0}, {"book": {}}, {"depth": 0, "label": ""}, {"depth": 3}][shape]
+    w = [{"depth": 0}, {"book": {}}, {"depth": 0}, {"depth": 3}][shape]
+    return both("probe", lambda: as_kind(req_kind, M["ProbeRequest"], fields), {}, lambda _w: one_call("probe", w))
+
+
 def disp_streams(which_rpc: int, n: int) -> bool:
     """
     pre: 0 <= which_rpc <= 1 and 0 <= n <= 2
@@ -904,9 +939,9 @@ def twin_route(table: Optional[int]) -> bool:
     return not (route_multi(1, table, None) and table == 3)
 
 
-C05_FUNCS = ["flat_get_book", "flat_create_book", "flat_tag_book", "flat_move_book", "flat_classify_book", "flat_update_book",
+C05_FUNCS = ["flat_get_book", "flat_create_book", "flat_tag_book", "flat_move_book", "flat_classify_book", "flat_shelve_book", "flat_update_book",
              "flat_delete_book", "flat_check_operation", "flat_mask", "flat_import", "flat_stream_books"]
-C03_FUNCS = ["disp_simple", "disp_streams", "disp_defaults", "flat_get_book", "flat_delete_book",
+C03_FUNCS = ["disp_simple", "disp_presence_only", "disp_streams", "disp_defaults", "flat_get_book", "flat_delete_book",
              "flat_stream_books", "flat_import", "flat_check_operation", "wire_list_books", "wire_write_book"]
 C06_FUNCS = ["route_simple", "route_rename", "route_override", "route_multi", "route_nested"]
 C18_FUNCS = ["uuid_create_book", "uuid_two_calls", "uuid_absent_elsewhere"]
@@ -914,7 +949,8 @@ C18_FUNCS = ["uuid_create_book", "uuid_two_calls", "uuid_absent_elsewhere"]
 EXPECTED_SIGNATURES = {
     "get_book": ["name"], "create_book": ["parent", "book", "book_id"], "update_book": ["book", "update_mask"],
     "delete_book": ["name"], "tag_book": ["name", "tags", "labels", "class_", "from_"],
-    "move_book": ["name", "other_shelf"], "classify_book": ["class_", "other_shelf"], "stream_books": ["parent"], "import_": ["source"],
+    "move_book": ["name", "other_shelf"], "classify_book": ["class_", "other_shelf"], "shelve_book": ["name", "library"],
+    "stream_books": ["parent"], "import_": ["source"],
     "check_operation": ["name"], "mask": ["paths"], "list_books": ["parent"], "write_book": ["name"],
     "no_sig": [], "ping": [], "create_channel": [], "route_simple": [], "route_multi": [],
 }
